@@ -52,6 +52,18 @@ static bool concretise(long rank, int mode, T & out) {
         }
         return false;
     }
+    if (mode == 2 || mode == 3 || mode == 4) {
+        // 64-bit integer coordinates far from zero (order-preserving shifts of the small ranks): just above 2^53, where not every
+        // integer is a double any more; just below the type's maximum; just above its minimum
+        if constexpr (std::is_integral_v<T> && sizeof(T) == 8) {
+            if (rank < -40 || rank > 40) return false;
+            if (mode == 2) out = static_cast<T>(9007199254740993ll + rank);
+            else if (mode == 3) out = static_cast<T>(std::numeric_limits<T>::max() - 45 + static_cast<T>(rank + 40) - 40);
+            else { if (std::is_unsigned_v<T>) return false; out = static_cast<T>(std::numeric_limits<T>::lowest() + 45 + rank); }
+            return true;
+        }
+        return false;
+    }
     if (rank < 0 && std::is_unsigned_v<T>) return false;   // does not exist in this type
     out = static_cast<T>(rank);
     return true;
@@ -64,7 +76,7 @@ static void run_case(const json & c, int mode) {
     using CL = cb::clamp<P>;
     using BK = cb::backup<P>;
     using CI = cb::clamp<cb::identity<V>>;
-    const std::string tag = std::string(tname<T>()) + "/N" + std::to_string(N) + (mode ? "/ulp" : "");
+    const std::string tag = std::string(tname<T>()) + "/N" + std::to_string(N) + (mode == 0 ? "" : mode == 1 ? "/ulp" : mode == 2 ? "/above-2^53" : mode == 3 ? "/near-max" : "/near-min");
     covfie::array::array<T, N> lo, hi, x, want;
     auto jl = c["lo"].get<std::vector<long>>(), jh = c["hi"].get<std::vector<long>>(), jx = c["x"].get<std::vector<long>>(),
          jc = c["clamped"].get<std::vector<long>>();
@@ -93,6 +105,13 @@ static void run_case(const json & c, int mode) {
             fa = covfie::field<CI>(f);
             auto r3 = typename covfie::field<CI>::view_t(fa).at(x);
             for (std::size_t i = 0; i < N; ++i) expect_eq("clamp/identity-after-move-assignment/" + tag, (long double)r3[i], (long double)want[i], ctx);
+            // a view made before its owner is moved elsewhere and the variable given another box: the view keeps ITS box
+            covfie::field<CI> own(f);
+            typename covfie::field<CI>::view_t lv(own);
+            covfie::field<CI> taken(std::move(own));
+            own = covfie::field<CI>(covfie::make_parameter_pack(typename CI::configuration_t{hi, hi}, std::monostate{}));
+            auto r4 = lv.at(x);
+            for (std::size_t i = 0; i < N; ++i) expect_eq("clamp/view-after-owner-moved/" + tag, (long double)r4[i], (long double)want[i], ctx);
         }
     }
     // ---- C10: clamp over the probe: queried coordinate, query count, returned value
@@ -127,6 +146,16 @@ static void run_case(const json & c, int mode) {
             typename BI::configuration_t other = bc; for (std::size_t i = 0; i < N; ++i) other.default_value[i] = static_cast<T>(1);
             covfie::field<BI> fa(covfie::make_parameter_pack(typename BI::configuration_t(other), std::monostate{}));
             fa = covfie::field<BI>(fi);
+            {   // a view made before its owner is moved elsewhere and the variable given another configuration
+                covfie::field<BI> own(fi);
+                typename covfie::field<BI>::view_t lv(own);
+                covfie::field<BI> taken(std::move(own));
+                typename BI::configuration_t shifted = other; shifted.min = hi; shifted.max = hi;
+                own = covfie::field<BI>(covfie::make_parameter_pack(typename BI::configuration_t(shifted), std::monostate{}));
+                auto rr = lv.at(x);
+                for (std::size_t i = 0; i < N; ++i)
+                    expect_eq("backup/view-after-owner-moved/" + tag, (long double)rr[i], inside ? (long double)x[i] : (long double)bc.default_value[i], ctx);
+            }
             for (auto * fld : {&fl, &fa}) {
                 auto rr = typename covfie::field<BI>::view_t(*fld).at(x);
                 for (std::size_t i = 0; i < N; ++i)
@@ -148,10 +177,10 @@ static void run_case(const json & c, int mode) {
 template <typename T>
 static void run_types(const json & c) {
     switch (c["n"].get<int>()) {
-        case 1: run_case<T, 1>(c, 0); if (std::is_floating_point_v<T>) run_case<T, 1>(c, 1); break;
-        case 2: run_case<T, 2>(c, 0); if (std::is_floating_point_v<T>) run_case<T, 2>(c, 1); break;
-        case 3: run_case<T, 3>(c, 0); if (std::is_floating_point_v<T>) run_case<T, 3>(c, 1); break;
-        case 4: run_case<T, 4>(c, 0); if (std::is_floating_point_v<T>) run_case<T, 4>(c, 1); break;
+        case 1: run_case<T, 1>(c, 0); if (std::is_floating_point_v<T>) run_case<T, 1>(c, 1); if (std::is_integral_v<T> && sizeof(T) == 8) { run_case<T, 1>(c, 2); run_case<T, 1>(c, 3); run_case<T, 1>(c, 4); } break;
+        case 2: run_case<T, 2>(c, 0); if (std::is_floating_point_v<T>) run_case<T, 2>(c, 1); if (std::is_integral_v<T> && sizeof(T) == 8) { run_case<T, 2>(c, 2); run_case<T, 2>(c, 3); run_case<T, 2>(c, 4); } break;
+        case 3: run_case<T, 3>(c, 0); if (std::is_floating_point_v<T>) run_case<T, 3>(c, 1); if (std::is_integral_v<T> && sizeof(T) == 8) { run_case<T, 3>(c, 2); run_case<T, 3>(c, 3); run_case<T, 3>(c, 4); } break;
+        case 4: run_case<T, 4>(c, 0); if (std::is_floating_point_v<T>) run_case<T, 4>(c, 1); if (std::is_integral_v<T> && sizeof(T) == 8) { run_case<T, 4>(c, 2); run_case<T, 4>(c, 3); run_case<T, 4>(c, 4); } break;
     }
 }
 
